@@ -237,9 +237,11 @@ pub(crate) fn on_task_update(
     let mut need_scheduling = false;
     // This relies on the fact that when worker switching to prefill, it will send Finish, followed by Start
     // And this cannot happen in any other way
+    // (if the prefilled task was canceled meanwhile, the worker's resources are not taken over
+    // by it from the server's point of view, so scheduling is needed as after any finished task)
     let is_prefill_update = updates.len() == 2
         && matches!(updates[0], WorkerTaskUpdate::Finished { .. })
-        && matches!(updates[1], WorkerTaskUpdate::RunningPrefilled { .. });
+        && matches!(&updates[1], WorkerTaskUpdate::RunningPrefilled(msg) if core.find_task(msg.task_id).is_some());
     for update in updates {
         match update {
             WorkerTaskUpdate::Finished { task_id } => {
